@@ -18,6 +18,7 @@
 #include <math.h>
 #include <float.h>
 #include <inttypes.h>
+#include <unistd.h>
 #include <stdarg.h>
 #include "types.h"
 #include "convert.h"
@@ -169,7 +170,7 @@ static int do_conv(int mode, const struct ty *src, const struct ty *tgt, void *d
 		if (!conv) return MPT_ERROR(BadType);
 		return conv(src_null ? 0 : srcbuf, tcode(tgt), dest);
 	} else {
-		MPT_STRUCT(value) val = MPT_VALUE_INIT(tcode(src), srcbuf);
+		MPT_STRUCT(value) val = MPT_VALUE_INIT(tcode(src), src_null ? 0 : srcbuf);
 		return mpt_value_convert(&val, tcode(tgt), dest);
 	}
 }
@@ -210,6 +211,31 @@ static int do_argv(const struct ty *src, const struct ty *tgt, void *dest)
 	case 'e': return call_vararg(fmt, *(long double *) srcbuf);
 	default: return MPT_ERROR(BadArgument);
 	}
+}
+
+/* ---- two values through a variadic call, read, the iterator reset, read again */
+static const struct ty *vr_ty;
+static char vr_out[4][48];
+static int vr_ret[5];
+static int vr_proc(void *ctx, MPT_INTERFACE(iterator) *it)
+{
+	(void) ctx;
+	for (int k = 0; k < 4; k++) {
+		if (k == 2) vr_ret[4] = it->_vptr->reset(it);
+		dst_prepare();
+		vr_ret[k] = mpt_iterator_consume(it, tcode(vr_ty), dstbuf);
+		if (vr_ret[k] < 0) strcpy(vr_out[k], "-"); else out_text(vr_ty, vr_out[k], sizeof(vr_out[k]));
+	}
+	return 0;
+}
+static int call_vararg_proc(int (*proc)(void *, MPT_INTERFACE(iterator) *), const char *fmt, ...)
+{
+	va_list va;
+	int r;
+	va_start(va, fmt);
+	r = mpt_process_vararg(fmt, va, proc, 0);
+	va_end(va);
+	return r;
 }
 
 /* ---- mpt_fpoint_set (mptplot): a consumer of mpt_iterator_consume(it, 'f', ..) */
@@ -402,13 +428,69 @@ int main(void)
 			if (!src || !tgt || src->code == 'l' || parse_src(src, drv_w[4], &iv)) { puts("bad-op"); continue; }
 			op_val(op[0] == 'a' ? 3 : op[0] == 'c' ? 2 : op[1] == 'v', src, tgt);
 		}
-		else if (!strcmp(op, "null") && drv_nw == 4) {
-			/* c null <src> <tgt>: the converter with a NULL source */
+		else if ((!strcmp(op, "null") || !strcmp(op, "vnull")) && drv_nw == 4) {
+			/* c null <src> <tgt>: the converter with a NULL source; c vnull: mpt_value_convert of a value without address */
 			const struct ty *src = ty_of(drv_w[2]), *tgt = ty_of(drv_w[3]);
 			if (!src || !tgt || src->code == 'l' || tgt->code == 'l') { puts("bad-op"); continue; }
 			src_null = 1;
-			op_val(0, src, tgt);
+			op_val(op[0] == 'v', src, tgt);
 			src_null = 0;
+		}
+		else if (!strcmp(op, "ftoken") && drv_nw == 5) {
+			/* c ftoken <tgt> <hex>: one token of a text file read through the file iterator (mpt_iterator_file) with
+			 * mpt_iterator_consume(it, tgt, ..); a fresh iterator for the storing call and for the query */
+			const struct ty *tgt = ty_of(drv_w[2]);
+			uint8_t *dat; size_t len; int isnull;
+			if (!tgt || tgt->code == 'c' || tgt->code == 'l' || drv_parse_data(drv_w[3], &dat, &len, &isnull) || isnull) { puts("bad-op"); continue; }
+			int bad = !len;
+			for (size_t k = 0; k < len; k++) if (!dat[k] || dat[k] == ' ' || (dat[k] >= 9 && dat[k] <= 13)) bad = 1;
+			if (bad) { puts("bad-op"); free(dat); continue; }
+			int res[2]; char out[48], b1[16], b2[16];
+			strcpy(out, "-");
+			for (int q = 0; q < 2; q++) {
+				FILE *tf = tmpfile();
+				fwrite(dat, 1, len, tf); fputc('\n', tf); fflush(tf);
+				int fd = dup(fileno(tf));
+				fclose(tf);
+				lseek(fd, 0, SEEK_SET);
+				MPT_INTERFACE(metatype) *mt = mpt_iterator_file(fd);
+				MPT_INTERFACE(iterator) *it = 0;
+				if (!mt || MPT_metatype_convert(mt, MPT_ENUM(TypeIteratorPtr), &it) < 0 || !it) { res[q] = -999; if (mt) mt->_vptr->unref(mt); continue; }
+				dst_prepare();
+				errno = ERANGE;
+				res[q] = mpt_iterator_consume(it, tcode(tgt), q ? 0 : dstbuf);
+				if (!q && res[q] >= 0) {
+					if (dst_spilled(tgt)) strcpy(out, "OOB");
+					else if (!dst_touched(tgt)) strcpy(out, "UNSET");
+					else out_text(tgt, out, sizeof(out));
+				}
+				mt->_vptr->unref(mt);
+			}
+			free(dat);
+			printf("R dst=%s out=%s nodst=%s | C - | I ret=%s qret=%s\n", res[0] < 0 ? "refused" : "ok", out, res[1] < 0 ? "refused" : "ok",
+			       retname(res[0], b1, sizeof(b1)), retname(res[1], b2, sizeof(b2)));
+		}
+		else if (!strcmp(op, "argvreset") && drv_nw == 5) {
+			/* c argvreset <src> <v1> <v2>: src one of i u x t d */
+			const struct ty *src = ty_of(drv_w[2]);
+			wide iv;
+			_Alignas(16) unsigned char a[16], b[16];
+			char fmt[3];
+			if (!src || !strchr("iuxtd", src->code) || parse_src(src, drv_w[3], &iv)) { puts("bad-op"); continue; }
+			memcpy(a, srcbuf, 16);
+			if (parse_src(src, drv_w[4], &iv)) { puts("bad-op"); continue; }
+			memcpy(b, srcbuf, 16);
+			fmt[0] = fmt[1] = src->code; fmt[2] = 0;
+			vr_ty = src;
+			int r;
+			switch (src->code) {
+			case 'i': r = call_vararg_proc(vr_proc, fmt, *(int32_t *) a, *(int32_t *) b); break;
+			case 'u': r = call_vararg_proc(vr_proc, fmt, *(uint32_t *) a, *(uint32_t *) b); break;
+			case 'x': r = call_vararg_proc(vr_proc, fmt, *(int64_t *) a, *(int64_t *) b); break;
+			case 't': r = call_vararg_proc(vr_proc, fmt, *(uint64_t *) a, *(uint64_t *) b); break;
+			default: r = call_vararg_proc(vr_proc, fmt, *(double *) a, *(double *) b); break;
+			}
+			printf("R first=%s,%s reset=%d again=%s,%s | C - | I ret=%d\n", vr_out[0], vr_out[1], vr_ret[4], vr_out[2], vr_out[3], r);
 		}
 		else if (!strcmp(op, "skip") && drv_nw == 4) {
 			/* c skip <src> <v>: mpt_iterator_consume(it, 0, 0) */
